@@ -243,6 +243,8 @@ func genAtomicFacts(repo string, emit func(name, leanDef string, err error)) {
 		{"callSeqOptOut", "x/operator/keeper/opt.go", "OptOut", "Keeper"},
 		{"callSeqMsgOptIntoAVS", "x/operator/keeper/msg_server.go", "OptIntoAVS", "MsgServerImpl"},
 		{"callSeqMsgDelegate", "x/delegation/keeper/msg_server.go", "DelegateAssetToOperator", "Keeper"},
+		{"callSeqCreateAVSTask", "x/avs/keeper/keeper.go", "CreateAVSTask", "Keeper"},
+		{"callSeqPrecompileCreateAVSTask", "precompiles/avs/tx.go", "CreateAVSTask", "Precompile"},
 	} {
 		_, f, err := xbParseGo(repo, cs[1])
 		if err != nil {
@@ -390,6 +392,35 @@ func genAuthFacts(repo string, emit func(name, leanDef string, err error)) {
 		}
 		emit("avsAuthReads", "/-- precompiles/avs/{tx,types}.go: which value each identity field is read from -/\ndef avsAuthReads : List (String × String) := "+xbLeanPairList(reads, "str"), err)
 		emit("avsOriginIgnored", fmt.Sprintf("/-- precompiles/avs/tx.go: the origin parameter of every tx method is `_` -/\ndef avsOriginIgnored : Bool := %v", origin), err)
+	}
+
+	// ---- which list each AVS owner check reads: slices.Contains(<list>, <element>)
+	{
+		var reads [][2]string
+		var oerr error
+		for _, m := range [][3]string{
+			{"precompiles/avs/tx.go", "RegisterAVS", "Precompile"}, {"precompiles/avs/tx.go", "UpdateAVS", "Precompile"},
+			{"precompiles/avs/tx.go", "DeregisterAVS", "Precompile"}, {"precompiles/avs/tx.go", "CreateAVSTask", "Precompile"},
+			{"x/avs/keeper/keeper.go", "UpdateAVSInfo", "Keeper"}, {"x/avs/keeper/keeper.go", "CreateAVSTask", "Keeper"},
+		} {
+			fset, f, err := xbParseGo(repo, m[0])
+			if err != nil {
+				oerr = err
+				continue
+			}
+			fd := xbFindFunc(f, m[1], m[2])
+			if fd == nil {
+				oerr = fmt.Errorf("%s: %s not found", m[0], m[1])
+				continue
+			}
+			ast.Inspect(fd.Body, func(n ast.Node) bool {
+				if c, ok := n.(*ast.CallExpr); ok && exprText(c.Fun) == "slices.Contains" && len(c.Args) == 2 {
+					reads = append(reads, [2]string{m[2] + "." + m[1], xbNodeText(fset, c.Args[0]) + " contains " + xbNodeText(fset, c.Args[1])})
+				}
+				return true
+			})
+		}
+		emit("avsOwnerCheckReads", "/-- every slices.Contains(list, element) in the AVS precompile methods and keeper entry points: which owner list is consulted for which address -/\ndef avsOwnerCheckReads : List (String × String) := "+xbLeanPairList(reads, "str"), oerr)
 	}
 
 	// ---- oracle branch of SigVerificationDecorator
